@@ -248,11 +248,21 @@ Definition new_address (e : env) (s : chain) (code_id : N) (creator : text) (sal
   | None => find_classic (code_id, instance_id) (classic_book e)
   end.
 
+(* cosmwasm_std::instantiate2_address (reached through predictable_contract_address, wasm.rs:1020-1032) rejects a
+   salt that is empty or longer than 64 bytes: an Instantiate2 with such a salt fails; it never falls back to the
+   classic address *)
+Definition salt_ok (salt : option bytes) : bool :=
+  match salt with
+  | Some sa => Nat.leb 1 (length sa) && Nat.leb (length sa) 64
+  | None => true
+  end.
+
 Definition register_contract (e : env) (s : chain) (code_id : N) (creator : text) (admin : option text)
            (label : text) (salt : option bytes) : outcome (text * chain) :=
   match find_code code_id (codes e) with
   | None => Err
   | Some _ =>
+      if negb (salt_ok salt) then Err else
       match new_address e s code_id creator salt with
       | None => Panic        (* the address book of the case does not cover this instantiation: harness error *)
       | Some a =>
